@@ -14,9 +14,8 @@ for d in seeded/*/; do
   rm -rf $SCR/r; mkdir -p $SCR/r; git -C /repo archive HEAD | tar -x -C $SCR/r
   ( cd $SCR/r && git init -q . && git apply /verif/$d/patch.diff ) || { echo "$name: patch does not apply"; bad=$((bad+1)); continue; }
   first=$(python3 -c "import json;print(json.load(open('$d/meta.json'))['confirmed_by_me']['detected_by'][0])")
-  out=$(VERIF_REPO=$SCR/r ./check $first --tier quick 2>&1); rc=$?
+  out=$(VERIF_REPO=$SCR/r VERIF_OUT=$SCR/out ./check $first --tier quick 2>&1); rc=$?
   if [ $rc -eq 1 ] && echo "$out" | grep -q "^VIOLATION property=$first"; then ok=$((ok+1)); echo "$name: caught by $first ($(echo "$out" | grep -m1 oracle= | cut -c1-90))"; else bad=$((bad+1)); echo "$name: MISSED by $first (rc=$rc)"; fi
-  rm -f replays/*.json
 done
 echo "caught=$ok missed=$bad"
 [ $bad -eq 0 ]
